@@ -13,7 +13,7 @@ import ast
 
 from sa.cfg import EXC_LABELS, node_calls, node_exprs, _walk_shallow
 from sa.common import cfg_of
-from sa.flow import lines, must_pass, path, reach, reaching_defs
+from sa.flow import must_pass_ps, lines, must_pass, path, reach, reaching_defs
 from sa.load import AnalysisError, Program, arg_of, callee_name, dotted, norm, params
 
 OS_PY = "dulwich/object_store.py"
@@ -130,7 +130,7 @@ def r14_2(prog: Program, rep):
         fallback = [i for i, n in g.nodes.items() for c in node_calls(n)
                     if isinstance(c.func, ast.Attribute) and isinstance(c.func.value, ast.Call) and callee_name(c.func.value) == "super"]
         rets = [i for i, n in g.nodes.items() if n.kind == "stmt" and isinstance(n.ast, ast.Return) and i not in fallback]
-        bad = must_pass(g, rets, set(deref) | set(fallback), start=hits)
+        bad = must_pass_ps(g, rets, set(deref) | set(fallback), start=hits)
         rep.ob("R14.2", OS_PY, f.qual, "a MIDX hit dereferences the named pack (or falls back) before answering", not bad,
                "an answer is returned from a multi-pack-index hit without checking that the pack it names still exists: "
                "a stale MIDX makes `oid in store` true while store[oid] raises", g.nodes[bad[0]].line if bad else f.node.lineno,
